@@ -418,16 +418,19 @@ dist_opts = dist.add_argument_group("distfile options")
 @dist.bind_final_check
 def _dist_validate_args(parser, namespace):
     distdir = namespace.domain.distdir
-    repo = namespace.repo
-    if repo is None:
+    def unfiltered(r):
         # look behind the visibility filter: a masked or keyworded out ebuild is
         # still an ebuild in the tree, and its distfiles are still in use
+        return r.raw_repo if isinstance(r, filtered.tree) else r
+
+    repo = namespace.repo
+    if repo is None:
         repo = multiplex.tree(
-            *(
-                r.raw_repo if isinstance(r, filtered.tree) else r
-                for r in get_virtual_repos(namespace.domain.source_repos, False)
-            )
+            *map(unfiltered, get_virtual_repos(namespace.domain.source_repos, False))
         )
+    else:
+        # -r hands over the filtered repo as well
+        repo = unfiltered(repo)
 
     all_dist_files = {os.path.basename(f) for f in listdir_files(distdir)}
     target_files = set()
